@@ -774,5 +774,22 @@ func (c *Client) Do(ctx context.Context, q Query) (err error) {
 		vhook.At("do.watch.skip")
 		return nil
 	})
-	return g.Wait()
+	if err := g.Wait(); err != nil {
+		return c.queryFailed(err, gotException.Load())
+	}
+	return nil
+}
+
+// queryFailed is called when query has failed and all goroutines of Do are
+// done. It leaves the client either closed or ready for the next request.
+func (c *Client) queryFailed(err error, exception bool) error {
+	// Never send leftovers of the failed query ahead of the next request.
+	c.writer.Reset()
+	if !exception {
+		// Unless the server itself ended the query with an exception, the
+		// connection can be in the middle of the query and can't be reused.
+		// No-op if the query was already canceled.
+		_ = c.Close()
+	}
+	return err
 }
